@@ -114,6 +114,7 @@ extern size_t verif_load_entry;
   __CPROVER_assigns(*c_, digits, decimal) \
   __CPROVER_loop_invariant(IN_BUF(*c_) && OFF(*c_) >= OFF(c0)) \
   __CPROVER_loop_invariant(0 <= digits && (size_t) digits <= OFF(*c_) - OFF(c0) + 1) \
+  __CPROVER_loop_invariant(IN_BUF(cDigits) && OFF(cDigits) >= OFF(c0) && OFF(cDigits) <= OFF(*c_)) \
   __CPROVER_loop_invariant(SKIPPED(c0, *c_) ==> BUF_G != 0) \
   __CPROVER_decreases(verif_len - OFF(*c_))
 /* loop 1: suffixes L U F and the exponent */
@@ -121,6 +122,7 @@ extern size_t verif_load_entry;
   __CPROVER_assigns(*c_, longs, unsigned_, float_, decimal) \
   __CPROVER_loop_invariant(IN_BUF(*c_) && OFF(*c_) >= OFF(c0)) \
   __CPROVER_loop_invariant(0 <= longs && (size_t) longs <= OFF(*c_) - OFF(c0)) \
+  __CPROVER_loop_invariant(IN_BUF(cDigits) && IN_BUF(cSuffix) && OFF(cDigits) >= OFF(c0) && OFF(cDigits) <= OFF(cSuffix) && OFF(cSuffix) <= OFF(*c_)) \
   __CPROVER_loop_invariant(SKIPPED(c0, *c_) ==> BUF_G != 0) \
   __CPROVER_decreases(verif_len - OFF(*c_))
 #endif
